@@ -164,6 +164,9 @@ type decoded struct {
 	shown func() string // printable decoded value
 	ptr   uintptr       // memory of the decoded data (B/S only, 0 if empty)
 	ln    int
+	// where the result's data pointer points, whatever its length and capacity (B/S only): an empty value that still
+	// points into the source keeps the whole source buffer reachable
+	dataPtr uintptr
 	// backing array of the result, res[:cap(res)] (byte strings; for strings the data itself). capLn==0: nothing to alias
 	capPtr uintptr
 	capLn  int
@@ -281,6 +284,7 @@ func (it Item) codec(info *Info15) codec {
 				decode: func(src []byte, nb bool) decoded {
 					n, r, err := xbinary.UnmarshalBytes(src, nb)
 					d := decoded{n: n, err: err, same: func() bool { return bytes.Equal(r, x) }, shown: func() string { return short(r) }, ln: len(r), capLn: cap(r)}
+					d.dataPtr = uintptr(unsafe.Pointer(unsafe.SliceData(r)))
 					if len(r) > 0 {
 						d.ptr = uintptr(unsafe.Pointer(unsafe.SliceData(r)))
 					}
@@ -300,6 +304,7 @@ func (it Item) codec(info *Info15) codec {
 			decode: func(src []byte, nb bool) decoded {
 				n, r, err := xbinary.UnmarshalString(src, nb)
 				d := decoded{n: n, err: err, same: func() bool { return r == xs }, shown: func() string { return short([]byte(r)) }, ln: len(r)}
+				d.dataPtr = uintptr(unsafe.Pointer(unsafe.StringData(r)))
 				if len(r) > 0 {
 					d.ptr = uintptr(unsafe.Pointer(unsafe.StringData(r)))
 					d.capPtr, d.capLn = d.ptr, len(r) // an empty string has no data to alias
@@ -772,8 +777,9 @@ func checkDecoded(where string, d decoded, size int) *vstat.Violation {
 // checkAlias: the item was decoded from src[start:] and has a prefix of `prefix` bytes; pristine is what src holds
 // (spare capacity included).
 // newBuf=false -> a non-empty result is exactly src[start+prefix:][:len]. newBuf=true -> the result's backing array
-// res[:cap(res)] (whatever its length, 0 included) does not overlap the memory of src, and appending to the result
-// as its owner would leaves src unchanged.
+// res[:cap(res)] (whatever its length, 0 included) does not overlap the memory of src, the result's data pointer does
+// not point into src[:cap(src)] even when length and capacity are 0 (pointer identity: the cheap form of what
+// Run15G asks the garbage collector), and appending to the result as its owner would leaves src unchanged.
 func checkAlias(where string, d decoded, src []byte, start, prefix int, newBuf bool, pristine []byte) *vstat.Violation {
 	if !newBuf {
 		if d.ln == 0 {
@@ -787,6 +793,10 @@ func checkAlias(where string, d decoded, src []byte, start, prefix int, newBuf b
 	}
 	if d.capLn > 0 && inside(d.capPtr, d.capLn, src) {
 		return vstat.V("xbin:newbuf-aliases-source", "%s: the result (len %d, cap %d) is backed by the source buffer", where, d.ln, d.capLn)
+	}
+	if within(d.dataPtr, src) {
+		return vstat.V("xbin:newbuf-result-points-into-source", "%s: the result (len %d, cap %d) holds a pointer into the source buffer (offset %d of its %d bytes): nothing can be read through it, but the whole source stays reachable for as long as the decoded value lives", where, d.ln, d.capLn,
+			d.dataPtr-uintptr(unsafe.Pointer(unsafe.SliceData(src))), cap(src))
 	}
 	if d.grow != nil {
 		d.grow()
